@@ -258,12 +258,18 @@ def check_selector(base, assign, trees, part):
                             f"expected after filtering {[e for _, _, e in kept]!r}; delivered {list(events)!r}", tags=["wrong-filter"]))
                 else:
                     # which bindings of the focus variable (in the focus function) are overridden
-                    at = R.immediate(trace, base, at_intercept=True)
-                    hit = {(t, aid) for t, aid, ev in at if passes(ev, assign)}
+                    # an override feeds back: later context captures of the same variable see the
+                    # substituted value, so the decisions are simulated in time order
+                    tr2 = list(trace)
                     want = []
                     for t, ev in enumerate(trace):
                         if ev[0] == "bind" and ev[2] == fcap.var and path[-1].label == _label(trace, ev[1]):
-                            want.append(OVR if (t, ev[1]) in hit else ev[3])
+                            at = [e for (tt, aid, e) in R.immediate(tr2, base, at_intercept=True) if tt == t]
+                            if any(passes(e, assign) for e in at):
+                                tr2[t] = ("bind", ev[1], ev[2], OVR)
+                                want.append(OVR)
+                            else:
+                                want.append(ev[3])
                     if want != plain:
                         part["violations"].append(violation(
                             PROP, "override-condition", {"selector": text, "mode": mode, "tree_repr": repr(tree)},
